@@ -51,17 +51,22 @@ LEVEL_NOTE = ('Trusts numpy float64 arithmetic and the exact metric '
 DESIGN_REF = 'DESIGN.md section 3, C05'
 RULE = ('(a) random single assemblies / 7-position cores with 0-4 unrodded '
         'regions, 1-5 power cells, 0-6 requested planes; one boundary of one '
-        'source is moved to within d of a boundary of another source, '
-        'd in {1e-13 .. 1e-6} m, both signs; length unit in {m, cm, mm, in, '
-        'ft}; every built reactor is re-meshed by its own real methods for '
-        'requests below / equal / above the limit, 30 % also through the '
-        'input file; (b) shells: step requirement log-uniform 1e-8..0.2 m, '
-        'core length chosen so that <= 2e4 (quick) / 2e5 (thorough) steps '
-        'result, 0-8 boundary clusters, requests none / below / equal / '
-        'above / sub-micrometre / zero / below plane rounding; (c) grid: '
-        'every d x sign x ordered source pair x request kind. A case is '
-        'non-trivial when a mesh of >= 10 steps with >= 1 interior boundary '
-        'was checked; distinct by (kind, unit, d, request kind, #bounds)')
+        'source (region cut, power-mesh bound incl. its top, requested '
+        'plane, other assembly type, other assembly power mesh) is moved to '
+        'within d of a boundary of another source, d in {1e-13 .. 1e-6} m, '
+        'both signs; length unit in {m, cm, mm, in, ft}; every built reactor '
+        'is re-meshed by its own real methods for requests below / equal / '
+        'above the limit (and inside the 1e-6 floor band, not asserted), '
+        '35 % also through the input file; plus inputs with a vanishing gap '
+        'flow, axial_mesh_size = 0 and 1e-13; (b) shells: smallest step '
+        'requirement log-uniform 1e-8..0.2 m (20 % within 0.4-4 um), core '
+        'length chosen so that <= 2e4 (quick) / 2e5 (thorough) steps result, '
+        '0-8 boundary clusters spread over power meshes, region lists (not '
+        'necessarily tiling) and planes, requests none / below / equal / '
+        'above / floor band / sub-micrometre / zero / below plane rounding; '
+        '(c) grid: every d x sign x ordered source pair x request kind. A '
+        'case is non-trivial when a mesh of >= 10 steps with >= 1 interior '
+        'boundary was checked; distinct by (kind, unit, stress, d, #bounds)')
 DECIDING = ['M0_progress_every_call', 'M1_starts_at_zero',
             'M2_ends_at_core_length', 'M3_strictly_increasing',
             'M4_boundary_is_plane', 'M5_step_within_limit',
@@ -448,7 +453,7 @@ def _regions(rng, t, lower, upper, L):
         t.pop('AxialRegion', None)
 
 
-def _refresh_power_spec(rng, P, key0='0'):
+def _refresh_power_spec(rng, P):
     for k0, spec in P['power']['asm'].items():
         zb = spec.get('zb', P['power']['zb'])
         nc = len(zb) - 1
@@ -614,9 +619,8 @@ def build_real_problem(case):
         stress_core(rng, P, feats)
     unit = wl.choose(rng, ['m', 'm', 'cm', 'in', 'ft', 'mm'])
     feats['unit'] = unit
-    for k in ('f4', ):
-        if case.get(k):
-            feats[k] = case[k]
+    if case.get('f4'):
+        feats['f4'] = case['f4']
     if case.get('f4') == 'tiny_bypass':
         P['gap_model'] = 'flow'
         P['bypass_fraction'] = float(wl.choose(rng, [1e-7, 1e-8, 1e-9]))
@@ -724,6 +728,13 @@ def run_real(case, res):
                     remesh(r, q)
                 except NoProgress as e:
                     no_progress(res, dict(key, request=kind), e, 'remesh')
+                    continue
+                except drive.Rejected as e:
+                    res.check('M6d_request_does_not_reject', False,
+                              'reactor built without a request exits with '
+                              'an error for axial_mesh_size=%r: %s' % (q, e),
+                              dict(key, mech='request_rejected',
+                                   request=kind))
                     continue
                 res.tag('request=' + kind)
                 oracle(res, dict(key, request=kind), mon, expected, L_in,
